@@ -111,8 +111,11 @@ class Observable(BaseObservable):
                 f"{instance.__class__.__name__}.{self.public_name} while also being dependent it"
             )
 
-        super().__set__(instance, value)  # send the notify
+        # store first, then notify: whoever reads while being notified (a handler, a
+        # Computable it reads) sees the new value
+        old_value = getattr(instance, self.private_name, self.fallback_value)
         setattr(instance, self.private_name, value)
+        instance.notify(self.public_name, old_value, value, "change")
 
 
 class Computable(BaseObservable):
@@ -495,11 +498,21 @@ class HasObservables:
         # notified: walk the list as it is now, but skip what has been unsubscribed
         # meanwhile (unobserve and clear_all_subscriptions replace the list)
         observers = self.subscribers[observable][signal_type]
-        for observer in tuple(observers):
-            if active_observer := observer():
-                current = self.subscribers[observable][signal_type]
-                if current is observers or observer in current:
-                    active_observer(signal)
+        snapshot = tuple(observers)
+        # the Computables that depend on this observable first (in subscription order),
+        # then the other handlers (in subscription order): every dependent is marked
+        # dirty before a handler can read it
+        for dependents in (True, False):
+            for observer in snapshot:
+                if active_observer := observer():
+                    if (
+                        isinstance(getattr(active_observer, "__self__", None), Computed)
+                        is not dependents
+                    ):
+                        continue
+                    current = self.subscribers[observable][signal_type]
+                    if current is observers or observer in current:
+                        active_observer(signal)
         # because we are using a list of subscribers
         # we should update this list to subscribers that are still alive
         self.subscribers[observable][signal_type] = [
